@@ -48,6 +48,8 @@ def run(chk):
     e10.run_U(chk, ("yastn.tensor", "yastn.initialize"), floor1=5, floor2=1)
 
 MUTANTS = [
+    ('remove_leg ignores the signature', 'yastn/tensor/_single.py', '        newn = a.config.sym.add_charges(a.struct.n, t, signatures=(-1, a.struct.s[haxis]), new_signature=-1)', '        newn = a.config.sym.add_charges(a.struct.n, t)', 'S2'),
+    ('axis guard forgets negative axes', 'yastn/tensor/_tests.py', '        if sa0 - set(range(a.ndim)) or sa1 - set(range(b.ndim)):', '        if max(sa0, default=-1) >= a.ndim or max(sa1, default=-1) >= b.ndim:', 'S1'),
     ("unaligned charge slice", "yastn/tensor/_merging.py", "to[n * nsym: (n + 1) * nsym]", "to[n: n + nsym]", "S6"),
     ("conj keeps charge", "yastn/tensor/_single.py", "    newn = a.config.sym.add_charges(a.struct.n, new_signature=-1)\n    news = tuple(-x for x in a.struct.s)\n    struct = a.struct._replace(s=news, n=newn)\n    hfs = tuple(hf.conj() for hf in a.hfs)\n    data",
      "    newn = a.config.sym.add_charges(a.struct.n)\n    news = tuple(-x for x in a.struct.s)\n    struct = a.struct._replace(s=news, n=newn)\n    hfs = tuple(hf.conj() for hf in a.hfs)\n    data", "S2"),
